@@ -379,6 +379,11 @@ func (a *AliveDialerSet) NotifyLatencyChange(dialer *Dialer, alive bool) {
 	} else if alive && minPolicy && a.minLatency.dialer == nil {
 		// Use first dialer if no dialer has alive state (usually happen at the very beginning).
 		a.minLatency.dialer = dialer
+		// Not alive -> alive. Domains without latency samples (data UDP revives by
+		// traffic only) take this path, so the group must be told here as well.
+		a.mu.Unlock()
+		a.aliveChangeCallback(true)
+		a.mu.Lock()
 		if a.log.IsLevelEnabled(logrus.InfoLevel) {
 			a.log.WithFields(logrus.Fields{
 				"group":   a.dialerGroupName,
